@@ -603,11 +603,48 @@ def compare(got, exp, tol):
     return True
 
 
-def sweep_graph(ctx, A, directed, defaults):
+def model_requests(ctx, run, g):
+    """round 4 requests to the Lean model (Model/NetRW.lean): link-weighted motif clustering, the whole
+    method `newman_betweenness` (components, exact inverse, kernel, normalisation by the component size,
+    scatter), the Cython kernel `_mpi_newman_betweenness` at its own boundary with dyadic potentials"""
+    from .c03 import quiet, fl, enc_mat, enc_frs
+    from pyunicorn.core._ext import numerics as K
+    from pyunicorn.core._ext.types import ADJ, DFIELD, to_cy
+    rng = ctx.rng
+    A, n = g.A, g.n
+    m = enc_mat(A)
+    if A.any():
+        impl = []
+        for kind in ("cycle", "mid", "in", "out"):
+            st, got = quiet(getattr(g.net, f"local_{kind}motif_clustering"), key="lw")
+            impl.append(fl(got) if st == "ok" else None)
+        run.approx("motifw " + m + " " + ";".join(enc_frs(r) for r in g.C), impl, ("motifw", A, g.directed))
+    if g.directed or n > 10 or n == 0:
+        return
+    st, got = quiet(g.net.newman_betweenness)
+    run.approx("newman " + m, [fl(got) if st == "ok" else None], ("newman", A, False))
+    run.newman_def.append("newmandef " + m)
+    # kernel boundary: a slice of rows [start, stop) of A, an arbitrary dyadic matrix V (exact in binary64)
+    start = rng.randrange(0, n)
+    stop = rng.randrange(start, n + 1)
+    V = [[Fr(rng.randrange(-40, 41), 8) for _ in range(n)] for _ in range(n)]
+    st, got = quiet(K._mpi_newman_betweenness, to_cy(np.asarray(A)[start:stop, :], ADJ),
+                    to_cy(np.array([[float(x) for x in r] for r in V]), DFIELD), n, start, stop)
+    ctx.count("kernel:_mpi_newman_betweenness")
+    if start < stop:
+        run.exact(f"newmankernel {enc_mat(np.asarray(A)[start:stop, :])} {';'.join(enc_frs(r) for r in V)} "
+                  f"{n} {start} {stop}",
+                  (enc_frs(Fr(float(x)) for x in got[0]) if st == "ok" and (got[1], got[2]) == (start, stop)
+                   else f"raise:{got}"), ("newmankernel", A, False))
+
+
+def sweep_graph(ctx, A, directed, defaults, run=None):
     from .c03 import quiet, fl
     rng = ctx.rng
     g = G(rng, A, directed)
     ctx.count("sweep:graphs")
+    if run is not None:
+        model_requests(ctx, run, g)
     for case in cases(g, rng):
         method, label, args, kwargs, exp, what = case[:6]
         obj = case[6] if len(case) > 6 else g.net
